@@ -1,6 +1,8 @@
 (* Model of the journal commit protocol under arbitrary interleaving (C12):
    lake/journal/store.go Store.commit/load and lake/journal/queue.go CommitAt.
-     attempt:  at := ReadHead ; table := entries 1..at ; check constraint on table ;
+     attempt:  at := ReadHead (the HEAD hint, then a forward probe over existing
+               entries: with atomic entry writes this is the true end of the log) ;
+               table := entries 1..at ; check constraint on table ;
                PutIfNotExists(entry at+1)  -- on "exists": retry (<= maxRetries) ;
                Put HEAD := at+1 ; acknowledge.
    Every step below is one storage operation; any client may take the next
@@ -50,7 +52,10 @@ Definition jstep (s : jstate) (i : nat) : jstate :=
   | Some c =>
     match cpc c with
     | PStart =>
-      upd s i {| cop := cop c; cpc := PLoaded (head s); cretries := cretries c |} (entries s) (head s)
+      (* Queue.ReadHead: read the hint, then probe Exists(entry id+1) while it
+         succeeds.  Entries are gapless and head <= length, so the probe ends at
+         the last entry. *)
+      upd s i {| cop := cop c; cpc := PLoaded (List.length (entries s)); cretries := cretries c |} (entries s) (head s)
     | PLoaded at_ =>
       if jcheck (cop c) (table s at_)
       then upd s i {| cop := cop c; cpc := PChecked at_; cretries := cretries c |} (entries s) (head s)
